@@ -271,6 +271,18 @@ def _entails(st, c):
     solver.add(z3.Not(c))
     if solver.check() == z3.unsat:
         return True
+    if not _has_select(c):
+        # pure index arithmetic (signs of products such as k*n): only the small select-free bounds, nonlinear reasoning allowed
+        solver = z3.Solver()
+        solver.set("timeout", 400)
+        n_small = 0
+        for h in st.pc:
+            if _qf(h) and not _has_select(h) and len(h.sexpr()) < 200:
+                solver.add(h)
+                n_small += 1
+        solver.add(z3.Not(c))
+        if n_small and solver.check() == z3.unsat:
+            return True
     if not skipped or not _has_select(c):
         return False
     # second attempt with the quantified hypotheses as well (bounds of index arrays usually come from them)
@@ -357,16 +369,21 @@ def letbind(I, st, v, name):
     st.heap[v.id] = n
 
 
-def norm_index(i, length):
-    """NumPy/Python index normalisation: negative wraps once"""
+def norm_index(i, length, st=None):
+    """NumPy/Python index normalisation: negative wraps once (decided under the path condition when a state is given)"""
     c = conc_int(i)
     if c is not None:
         return i if c >= 0 else z3.simplify(length + c)
+    if st is not None and not getattr(st, "_no_resolve", False):
+        if entails(st, i >= 0):
+            return z3.simplify(i)
+        if entails(st, i < 0):
+            return z3.simplify(i + length)
     return z3.If(i < 0, i + length, i)
 
 
 def load_elem(I, st, rs, idx, node, what="index"):
-    i = norm_index(to_int(idx), rs.length)
+    i = norm_index(to_int(idx), rs.length, st)
     excs, ok = I.may_raise(st, z3.Not(z3.And(i >= 0, i < rs.length)), "IndexError", f"{what} out of bounds", I.where(node))
     res = list(excs)
     if ok is not None:
@@ -377,14 +394,14 @@ def load_elem(I, st, rs, idx, node, what="index"):
 def store_elem(I, st, ref, idx, v, node):
     o = st.heap[ref.id]
     if isinstance(o, ViewVal):
-        i = norm_index(to_int(idx), o.length)
+        i = norm_index(to_int(idx), o.length, st)
         excs, ok = I.may_raise(st, z3.Not(z3.And(i >= 0, i < o.length)), "IndexError", "store index", I.where(node))
         if ok is not None:
             _write(ok, o.base, o.idxmap(i), v, o.dtype)
             excs.append((ok, NONE))
         return excs
     if isinstance(o, SeqVal):
-        i = norm_index(to_int(idx), o.length)
+        i = norm_index(to_int(idx), o.length, st)
         excs, ok = I.may_raise(st, z3.Not(z3.And(i >= 0, i < o.length)), "IndexError", "store index", I.where(node))
         if ok is not None:
             _write(ok, ref.id, i, v, o.dtype)
